@@ -354,6 +354,11 @@ func (n *node) step(in stepIn) (o stepOut) {
 		if in.incompl {
 			ps = types.NewPartSetFromHeader(ps.Header())
 		}
+		// finalizeCommit: "+2/3 committed an invalid block" panics before anything is saved
+		if err := n.be.ValidateBlock(n.state, b); err != nil {
+			o.saved = "panic:invalid"
+			return o
+		}
 		func() {
 			defer func() {
 				if r := recover(); r != nil {
@@ -827,7 +832,7 @@ func execOp(np **node, op string) string {
 // ---------------------------------------------------------------- oracle
 
 // The property on the implementation's outputs: in a history whose inputs are honest (no
-// bad* flag, no direct state-store prune), every audit — after each op and after every crash
+// badsc flag, no direct state-store prune), every audit — after each op and after every crash
 // prefix — must be "ok".
 func oracle(c core.Case, out []string) []core.Finding {
 	var fs []core.Finding
@@ -841,7 +846,8 @@ func oracle(c core.Case, out []string) []core.Finding {
 	}
 	for i, op := range c.Ops {
 		name, m := kv(op)
-		if flag(m, "badlc") || flag(m, "badsc") || name == "stprune" {
+		// a bad LastCommit is NOT hostile: finalizeCommit validates before saving, the property must hold
+		if flag(m, "badsc") || name == "stprune" {
 			hostile = true
 		}
 		if hostile || i >= len(out) {
